@@ -21,6 +21,20 @@ example : WfBinTape [.token 1, .object 4, .token 2, .i32 5, .end_ 1] :=
 example : ¬ WfBinTape [.token 1, .array 3, .end_ 1] := fun h =>
   absurd ((C06_bin_checker_sound [] _).mpr h) (by decide)
 
+/-- **`WfBinTape` in the words of the property** (index form): every container-start token at `i`
+indexes a later end token `e > i` inside the tape that indexes it back; every `End i` at `j` is
+indexed by the container at `i < j`; no container or `End` carries (or sits at) index 0.  Proper
+nesting is the grammar `Items` itself. -/
+theorem C06_bin_links (toks : Tape) (h : WfBinTape toks) :
+    (∀ i e, (toks[i]? = some (.array e) ∨ toks[i]? = some (.object e)) →
+        i ≠ 0 ∧ e ≠ 0 ∧ i < e ∧ e < toks.length ∧ toks[e]? = some (.end_ i)) ∧
+    (∀ j i, toks[j]? = some (.end_ i) →
+        i ≠ 0 ∧ i < j ∧ (toks[i]? = some (.array j) ∨ toks[i]? = some (.object j))) :=
+  ⟨fun i e hs => by
+      obtain ⟨h1, h2, h3, h4⟩ := h.start_link i e hs
+      exact ⟨h1, by omega, h2, h3, h4⟩,
+   fun j i hs => h.end_link j i hs⟩
+
 /-- **The parser's invariant implies `WfBinTape` at the accepting exit, for all inputs.**
 `TInv` (Proofs/BinTapeInv.lean) holds for the initial variables (`init_inv`), is preserved by
 every iteration of the plain loop (`step_inv`), and at the accepting exit gives `WfBinTape`
